@@ -23,7 +23,7 @@ API = {0: 'parallel_for(ts, states, gen, ChunkedRange, f(state,b,e), opts)',
        2: 'parallel_for(ts, states, gen, start, end, f(state,i), opts)'}
 
 
-def inst(name, N, S, mode=0, wait=2, depth=2, cont=0, api=0, tiers=('quick', 'thorough'), timeout=280, unwind=None,
+def inst(name, N, S, mode=0, wait=2, depth=2, cont=0, api=0, tiers=('quick', 'thorough'), timeout=900, unwind=None,
          thorough=None, **kw):
     defs = {'VF_N': N, 'VF_S': S, 'VF_MODE': mode, 'VF_WAIT': wait, 'VF_DEPTH': depth, 'VF_CONT': cont, 'VF_API': api}
     defs.update(kw)
